@@ -26,6 +26,9 @@ CHECKS = {
  "C09": dict(level="exploration", technique="exhaustive enumeration of author-id plantings over the term grammar, and of all navigation/bookmark/braille-routing query sequences up to length 2 per expression",
              text="Every spine term to depth 2 and every trigger term x {no ids, one author id at each element in turn, all elements, duplicates, generated-looking id}: all result elements have ids, no id is duplicated beyond the input, a planted id stays on the element carrying the token's text. Per expression, every navigation sequence of length <=2 over 21 commands, SSML and SAPI5 bookmarks, node-from-braille for every cell and cursor routing with offsets: every id handed out is an id of the returned MathML.",
              note="Ids on mrow/wrapper elements and on non-rendered content carry no claim; where two author ids compete for one merged element only one can survive.", design="§4 C09"),
+ "C04": dict(level="exploration", technique="exhaustive enumeration of planted-literal terms of the grammar x the complete language x style x verbosity lattice; oracle counts literal occurrences in speech",
+             text="Every spine term to depth 2 with a distinct decimal literal at every operand slot in all 45 shipped speech configurations, depth 3 over a 12-construct core (quick: English; thorough: all languages) and depth 4 over a 6-construct core (thorough): every literal must occur in the speech at least as often as in the expression. Misses are classed by construct.slot and by whether the slot is already silent when the construct stands alone.",
+             note="'At least' rather than 'exactly' (ClearSpeak repeats interval end points). Identifiers are not checked textually. Speech errors are left to C05/C15.", design="§4 C04"),
 }
 PENDING = {}
 
